@@ -20,6 +20,7 @@ type extractor struct {
 
 var extractors = []extractor{
 	{"Funcs", genFuncs},
+	{"ErrorTable", genErrorTable},
 }
 
 func main() {
